@@ -274,6 +274,10 @@ def replay(beh):
                     pass
         except Exception as ex:  # noqa: BLE001
             return (f"replay:raise:{type(ex).__name__}", f"replaying trial {name} {subs} verdict {end['verdict']} raised {ex!r}", {"beh": {k: beh[k] for k in ('driver', 'moves')}, "trial": t})
+        if any(len(q) for q in g.scripts.values()):
+            # the code did not ask its generator in the way the replay imposes choices (schedule by weighted choice,
+            # composite label by unweighted choice, composite direction by random()): this behaviour cannot be imposed
+            return ("replay:not-realisable", "scripted draws were not consumed", {})
         hv = mc.move_history[-1][1] if mc.move_history else "?"
         got_v = "none" if hv is None else ("acc" if hv else "rej")
         if got_v != end["verdict"]:
